@@ -357,10 +357,11 @@ func runC09(c *Ctx) {
 		rv := c.Fn("core/state:(*StateDB).RevertToSnapshot")
 		f := c.Facts(rv)
 		// loop: i starts at len(journal)-1, decrements, guard i >= snapshot
+		// the loop index is the value indexing the journal at the undo call (identified by role, not by name)
 		var phi *ssa.Phi
-		for _, b := range rv.Blocks {
-			for _, ins := range b.Instrs {
-				if p, ok := ins.(*ssa.Phi); ok && p.Comment == "i" {
+		for _, s := range callSites(rv, `^journalEntry\.undo$`) {
+			if _, idx := indexBase(s.Common().Value); idx != nil {
+				if p, ok := idx.(*ssa.Phi); ok {
 					phi = p
 				}
 			}
@@ -369,16 +370,16 @@ func runC09(c *Ctx) {
 		detail := ""
 		if phi != nil && len(phi.Edges) == 2 {
 			a, b := f.tr.term(nil, phi.Edges[0], 0), f.tr.term(nil, phi.Edges[1], 0)
-			okLoop = a == "(len(StateDB#0.journal) - 1)" && b == "(phi:i - 1)"
+			okLoop = a == "(len(StateDB#0.journal) - 1)" && b == "("+f.tr.term(nil, phi, 0)+" - 1)"
 			detail = "i := " + a + "; step " + b
 		}
 		c.Ob("C09-R2", "RevertToSnapshot: loop runs i = len(journal)-1 downwards", c.FnPos(rv), okLoop, detail)
 		c.MustBefore("C09-R2", rv, `^journalEntry\.undo$`, 1, []LitReq{
-			{Name: "undo is applied to journal[i] for i >= snapshot index", Re: `^phi:i >= StateDB#0\.validRevisions\[.*\]\.journalIndex$`},
+			{Name: "undo is applied to journal[i] for i >= snapshot index", Re: `^` + PH + ` >= StateDB#0\.validRevisions\[.*\]\.journalIndex$`},
 		})
 		for _, s := range callSites(rv, `^journalEntry\.undo$`) {
 			t := f.tr.term(nil, s.Common().Value, 0)
-			c.Ob("C09-R2", "RevertToSnapshot: the entry undone is journal[i]", c.Position(s.Pos()), t == "StateDB#0.journal[phi:i]", "receiver "+t)
+			c.Ob("C09-R2", "RevertToSnapshot: the entry undone is journal[i]", c.Position(s.Pos()), phi != nil && t == "StateDB#0.journal["+f.tr.term(nil, phi, 0)+"]", "receiver "+t)
 		}
 		c.storeIs("C09-R2", rv, "journal", `^StateDB#0\.journal\[:StateDB#0\.validRevisions\[.*\]\.journalIndex\]$`, "journal truncated to the snapshot index")
 		c.storeIs("C09-R2", rv, "validRevisions", `^StateDB#0\.validRevisions\[:.*\]$`, "later revisions dropped")
